@@ -380,6 +380,7 @@ type Config struct {
 	Jobs     int
 	Verbose  bool
 	KeepSMT  string
+	Unroll   int  // >0: bounded fall-back — loops unrolled this many times, loop clauses ignored
 	Fast     bool // development: main query (and its quantified retry) only; no staged, exact or case-split attempts
 }
 
@@ -1525,6 +1526,17 @@ func verifyFunction(p *Program, c *Contract, cfg Config, filter func(o *Obl) boo
 	t0 := time.Now()
 	rep = &FuncReport{Key: c.Key}
 	defer func() { rep.Wall = time.Since(t0).Seconds() }()
+	if cfg.Unroll > 0 {
+		// bounded fall-back: the interface of the contract only; clauses about loops are dropped
+		if !c.usableAtCalls() {
+			rep.Errors = append(rep.Errors, "anchor-lost: the pre/postconditions themselves cannot be bound")
+			return rep
+		}
+		cc := *c
+		cc.Loops = map[int]*LoopSpec{}
+		cc.BindErr = nil
+		c = &cc
+	}
 	if len(c.BindErr) > 0 {
 		for _, e := range c.BindErr {
 			rep.Errors = append(rep.Errors, "anchor-lost: "+e)
@@ -1534,6 +1546,7 @@ func verifyFunction(p *Program, c *Contract, cfg Config, filter func(o *Obl) boo
 	resetTerms()
 	heapSymMemo = map[int]map[string]bool{}
 	x := newFnExec(p, c.Fn, c)
+	x.unroll = cfg.Unroll
 	func() {
 		defer func() {
 			if r := recover(); r != nil {
@@ -1546,7 +1559,12 @@ func verifyFunction(p *Program, c *Contract, cfg Config, filter func(o *Obl) boo
 		}()
 		x.generate()
 	}()
-	rep.Errors = append(rep.Errors, x.errors...)
+	for _, e := range x.errors {
+		if cfg.Unroll > 0 && !strings.HasPrefix(e, "engine:") {
+			continue // an interior assertion that cannot be bound either: not part of the bounded check
+		}
+		rep.Errors = append(rep.Errors, e)
+	}
 	for n := range x.notes {
 		rep.Notes = append(rep.Notes, n)
 	}
